@@ -131,6 +131,10 @@ Definition wf_with (hb : ascii -> bool) (mp mk : nat) (p : pat) : bool :=
 Definition in_grammar_with (hb : ascii -> bool) (mp mk : nat) (s : bytes) (n eh : nat) : Prop :=
   exists p, render_pat p = s /\ wf_with hb mp mk p = true /\ n = wild_count p /\ eh = length (host_text p).
 
+(* the byte class the validator in /repo actually applies to hostname labels (finding
+   c10_underscore_hostname): LDH plus '_' *)
+Definition ldh_or_underscore (c : ascii) : bool := ldh c || Ascii.eqb c "_".
+
 (* THE grammar: hostname labels are LDH *)
 Definition label_ok := label_ok_with ldh.
 Definition host_ok := host_ok_with ldh.
